@@ -188,6 +188,7 @@ def c05_rules():
         lambda prog, tier: sensemap.run(prog),
         lambda prog, tier: verdict.run(prog),
         lambda prog, tier: djsym.run_nbsym(prog),
+        lambda prog, tier: djsym.run_keepcache(prog),
     ]
 
 
@@ -617,7 +618,8 @@ _ADD = {
     "C05": {"technique": "; per-iteration must-write analysis for the co-update of a row's sense with its logical column",
             "explanation": " (R-COUPD(sense)) every path that stores a new row sense also writes the logical column's lower bound, upper bound and "
                            "coefficient before the loop iteration / function completes; (R-SENSEMAP) ILLlib_addrow, ILLlp_add_logicals and ILLlib_chgsense "
-                           "give the logical column the same coefficient sign for every sense letter (value enumeration through the switch / if forms)."},
+                           "give the logical column the same coefficient sign for every sense letter (value enumeration through the switch / if forms); (R-KEEPCACHE) the test of the cached dual "
+                           "value that lets ILLlib_delrows keep the cached solution rejects both signs."},
     "C08": {"technique": "; all-paths constant propagation through the '/' case of the exact literal scanner; flag-state dataflow for stores into the "
                          "raw LP's bounds; machine-word sink census; exit-condition analysis of the emission loops",
             "explanation": " (R-RESCAN) the '/' case of the exact literal scanner restores every scanner state variable; (R-EXPLICITBND) the raw LP's "
